@@ -8,6 +8,7 @@ import SigHook.Model.ChannelGen
 import SigHook.Model.Iterator
 import SigHook.Model.Entry
 import SigHook.Model.Builtin
+import SigHook.Model.Pipe
 import SigHook.Gen.Orderings
 import SigHook.Gen.Consts
 import SigHook.Model.Env
@@ -696,6 +697,54 @@ def flStep (d : FlDrv) (line : String) : FlDrv × String :=
       | .exited code hooks _ => ({ d with dead := some code }, if hooks then "ATEXIT-HOOK-RAN" else "")
     | _ => (d, "bad-op")
 
+/-! ### self-pipe (L9) -/
+
+structure PiDrv where
+  fd : Pipe.Fd := { kind := .pipe, nonblock := false, fill := 0, cap := 0 }
+  method : Option Pipe.Method := none
+  closed : Bool := false
+  taken : Bool := false
+
+def piStep (d : PiDrv) (line : String) : PiDrv × String :=
+  match line.trimAscii.toString.splitOn " " with
+  | ["---"] => ({}, "exit continues\n---")
+  | ["mk", k, nb, full, cap] =>
+    let c := cap.toNat?.getD 0
+    let kind := match k with | "pipe" => Pipe.Kind.pipe | "stream" => .stream | _ => .dgram
+    let f := if full == "1" then c else 0
+    ({ fd := { kind := kind, nonblock := nb == "1", fill := f, cap := c }, method := none, closed := false },
+     s!"made cap={c} fill={f}")
+  | ["reg", _, s] =>
+    match parseInt? s with
+    | none => (d, "bad-op")
+    | some sig =>
+      let pr := Pipe.probe d.fd
+      let (m, fd') := Pipe.classify d.fd
+      let probeLine := s!"  sys send W len=0 dontwait = {if pr == .zero then "0" else "-1"}"
+      let flagLines := if m == .write then "\n  sys fcntl W getfl = 0\n  sys fcntl W setfl nonblock=1 = 0" else ""
+      let r := Registry.register regEnv Registry.State.init sig 1
+      match r.2 with
+      | .id _ _ => ({ d with fd := fd', method := some m, taken := true }, "ok\n" ++ probeLine ++ flagLines)
+      | .panic => ({ d with fd := Pipe.close fd', closed := true }, "panic\n" ++ probeLine ++ flagLines ++ "\n  sys close W = 0")
+      | _ => ({ d with fd := Pipe.close fd', closed := true }, "err\n" ++ probeLine ++ flagLines ++ "\n  sys close W = 0")
+  | ["raise", n] =>
+    match d.method, n.toNat? with
+    | some m, some n =>
+      let r := Pipe.burst m d.fd n
+      let wb := (r.2.filter (· == .blocks)).length
+      ({ d with fd := r.1 }, s!"raised {n} attempts={r.2.length} wouldblock={wb} blocking_calls={wb} slow=0")
+    | none, some n => (d, if d.taken then s!"raised {n} attempts=0 wouldblock=0 blocking_calls=0 slow=0" else "raised 0")
+    | _, _ => (d, "raised 0")
+  | ["drain"] =>
+    let r := Pipe.drain d.fd
+    ({ d with fd := r.1 }, s!"bytes={r.2}")
+  | ["unreg"] =>
+    match d.method with
+    | some _ => ({ d with fd := Pipe.close d.fd, method := none, closed := true }, "unregistered=true fd=closed\n  sys close W = 0")
+    | none => (d, s!"unregistered=false fd={if d.closed then "closed" else "open"}")
+  | ["final"] => (d, s!"fd={if d.closed then "closed" else "open"}")
+  | _ => (d, "bad-op")
+
 partial def loop {σ} (h : IO.FS.Stream) (out : IO.FS.Stream) (st : σ) (f : σ → String → σ × String) :
     IO Unit := do
   let line ← h.getLine
@@ -720,5 +769,6 @@ def main (args : List String) : IO UInt32 := do
   | ["iter"] => loop stdin stdout ({} : ItDrv) itStep; return 0
   | ["entries"] => loop stdin stdout ({} : EnDrv) enStep; return 0
   | ["flags"] => loop stdin stdout ({} : FlDrv) flStep; return 0
+  | ["pipes"] => loop stdin stdout ({} : PiDrv) piStep; return 0
   | ["channel-table"] => (for l in chTable () do stdout.putStrLn l); return 0
   | _ => IO.eprintln "usage: driver registry"; return 2
